@@ -199,6 +199,11 @@ func (gen *generator) irCharArrayConst(t types.Type, old *ast.CharArrayConst) (*
 	if !t.Equal(c.Typ) {
 		return nil, errors.Errorf("character array type mismatch; expected %q, got %q (unquoted_data=`%s`, orig_data=`%s`)", c.Typ, t, data, old.Val().Text())
 	}
+	// Keep the type as given; e.g. an array of a named i8 type (`%char = type
+	// i8`) or a named array type.
+	if t, ok := t.(*types.ArrayType); ok {
+		c.Typ = t
+	}
 	return c, nil
 }
 
